@@ -250,6 +250,8 @@ where
     #[inline]
     fn next(&mut self) -> Option<Result<Token, Token::Error>> {
         self.token_start = self.token_end;
+        #[cfg(feature = "verif_trace")]
+        crate::verif_trace::push(crate::verif_trace::Event::Next(self.token_start));
 
         Token::lex(self)
     }
@@ -324,6 +326,11 @@ where
     where
         Chunk: source::Chunk<'source>,
     {
+        #[cfg(feature = "verif_trace")]
+        {
+            let hit = self.source.read::<Chunk>(offset).is_some();
+            crate::verif_trace::push(crate::verif_trace::Event::Read(offset, Chunk::SIZE, hit));
+        }
         self.source.read(offset)
     }
 
@@ -331,6 +338,8 @@ where
     #[inline]
     fn trivia(&mut self) {
         self.token_start = self.token_end;
+        #[cfg(feature = "verif_trace")]
+        crate::verif_trace::push(crate::verif_trace::Event::Trivia(self.token_start));
     }
 
     /// Set the current token to appropriate `#[error]` variant.
@@ -338,11 +347,15 @@ where
     #[inline]
     fn end_to_boundary(&mut self, offset: usize) {
         self.token_end = self.source.find_boundary(offset);
+        #[cfg(feature = "verif_trace")]
+        crate::verif_trace::push(crate::verif_trace::Event::EndToBoundary(offset, self.token_end));
     }
 
     #[inline]
     fn end(&mut self, offset: usize) {
         self.token_end = offset;
+        #[cfg(feature = "verif_trace")]
+        crate::verif_trace::push(crate::verif_trace::Event::End(offset));
     }
 
     #[inline]
